@@ -33,7 +33,7 @@ fn main() {
         writeln!(out, "{}", json!({"op":"reset"})).unwrap();
         let mut m = SlotMap::new();
         for _ in 0..len {
-            let c = rng.gen_range(0..10);
+            let c = rng.gen_range(0..11);
             let ev = if c < 5 {
                 let (k, v) = (rng.gen_range(1..=alpha), rng.gen_range(1..=alpha));
                 m.insert(sl(k), sl(v));
@@ -42,6 +42,17 @@ fn main() {
                 let k = rng.gen_range(1..=alpha);
                 m.remove(sl(k));
                 json!({"op":"remove","k":k,"pairs":pairs_of(&m)})
+            } else if c == 10 {
+                // build the same pair set from a shuffled listing (from_pairs / collect)
+                let mut order: Vec<(Slot, Slot)> = m.iter().collect();
+                order.shuffle(&mut rng);
+                let built = if rng.gen_bool(0.5) { SlotMap::from_pairs(&order) } else { order.iter().copied().collect::<SlotMap>() };
+                let gets: Vec<(u32, Vec<u32>)> = (1..=alpha).map(|k| (k, built.get(sl(k)).and_then(back).into_iter().collect())).collect();
+                let inv_inv = if built.is_bijection() { built.inverse().inverse() == built && built.inverse().inverse() == m } else { true };
+                json!({"op":"build","order":order.iter().map(|(a, b)| (back(*a).unwrap(), back(*b).unwrap())).collect::<Vec<_>>(),
+                       "pairs":pairs_of(&built),"len":built.len(),"eq": built == m && m == built, "hash": h(&built) == h(&m),
+                       "cmp_equal": built.cmp(&m) == std::cmp::Ordering::Equal && built.keys_vec() == m.keys_vec() && built.values_vec() == m.values_vec(),
+                       "inv_inv": inv_inv, "gets": gets})
             } else if c < 9 {
                 let canon = SlotMap::from_pairs(&m.iter().collect::<Vec<_>>());
                 let mut keys: Vec<u32> = m.keys().iter().filter_map(|s| back(*s)).collect(); keys.sort();
